@@ -47,7 +47,7 @@ payload is built from the valid fragments only -/
 def badBase : Nat := 1000000000
 
 def canonPayload : Payload → String
-  | .metrics t _ => canonMetrics t
+  | .metrics t _ _ => canonMetrics t
   | .events r => s!"E[rs={r.cap},seen={r.seen}|{natList (sortNat ((r.evs.toList.map (·.data)).filter (· < badBase)))}]"
   | .errors a => s!"R[{natList (sortNat ((a.toList.map (·.data)).filter (· < badBase)))}]"
   | .slow l => "S[" ++ joinSp (sortStr (l.map (fun x => s!"{x.id}:{x.count}:{x.total}:{x.min}:{x.max}"))) ++ "]"
